@@ -25,6 +25,8 @@ func init() {
 
 func runC14(c *eng.Ctx) {
 	seekSkipsEmptySlots(c)
+	bitReaderFetchesOnlyWhenNeeded(c)
+	decoderAcceptsTheShortestBlock(c)
 	p := c.P
 	deltaWidthCoversEveryDelta(c)
 	fixedOffsetReadsItsOwnBytes(c)
